@@ -882,6 +882,25 @@ func checkDCMISensorInfo(c *Ctx, r *Report) {
 			}
 		}
 	}
+	// or the whole page appended at once: append(collected, Rsp.RecordIDs...)
+	if !okApp {
+		for b := range outer.Blocks {
+			for _, in := range b.Instrs {
+				call, ok := in.(*ssa.Call)
+				if !ok || len(call.Call.Args) != 2 {
+					continue
+				}
+				if bi, ok := call.Call.Value.(*ssa.Builtin); !ok || bi.Name() != "append" {
+					continue
+				}
+				if ld, ok := call.Call.Args[1].(*ssa.UnOp); ok && ld.Op == token.MUL && apOf(ld.X).SelString() == "Rsp.RecordIDs" {
+					if _, isSl := call.Type().Underlying().(*types.Slice); isSl && mustPrecede(pager, send, call) {
+						okApp = true
+					}
+				}
+			}
+		}
+	}
 	r.Check(okApp, pname+"|append in order", send.Pos(), "every returned record ID appended, ascending", "the record IDs of a page are not all appended in response order")
 	// exits: len(Rsp.RecordIDs)==0 ; len(collected)==255 ; header len(collected) < total(byte)
 	exitEmpty, exit255, exitTotal := false, false, false
